@@ -45,12 +45,17 @@ type DB struct {
 	Log      []Stmt
 	OnCommit func(changes []Change)
 	FailNext error // the next statement fails with this error
+	// MetaCols: what information_schema reports as the column order of a table (default: the table's own order)
+	MetaCols map[string][]string
 	// FailMeta: information_schema queries fail with this error (e.g. driver.ErrBadConn: the pooled connection is gone)
 	FailMeta error
 	// SlowSelect: a SELECT is in flight for one scheduling step before it reads the table
 	SlowSelect bool
-	pending  []Change
-	inTx     bool
+	pending    []Change
+	inTx       bool
+	txOwner    *conn
+	// Isolate: reads on other connections do not see the open transaction's writes
+	Isolate  bool
 	snapshot map[string][][]driver.Value
 	id       string
 	handles  []*sql.DB
@@ -575,10 +580,16 @@ func (d *DB) matches(t *Table, ps *Parsed, row []driver.Value) bool {
 }
 
 // Select evaluates a parsed SELECT directly (reference evaluation for oracles).
-func (d *DB) Select(ps *Parsed) [][]driver.Value {
+func (d *DB) Select(ps *Parsed) [][]driver.Value { return d.selectFrom(ps, false) }
+
+func (d *DB) selectFrom(ps *Parsed, snapshot bool) [][]driver.Value {
 	t := d.Tables[ps.Table]
 	var out [][]driver.Value
-	for _, r := range t.Rows {
+	src := t.Rows
+	if snapshot {
+		src = d.snapshot[ps.Table]
+	}
+	for _, r := range src {
 		if d.matches(t, ps, r) {
 			out = append(out, cloneRow(r))
 		}
@@ -694,6 +705,10 @@ func (r result) LastInsertId() (int64, error) { return r.id, nil }
 func (r result) RowsAffected() (int64, error) { return r.n, nil }
 
 func (d *DB) query(s string, args []driver.Value) (driver.Rows, error) {
+	return d.queryAs(s, args, false)
+}
+
+func (d *DB) queryAs(s string, args []driver.Value, snapshot bool) (driver.Rows, error) {
 	d.Log = append(d.Log, Stmt{s, args})
 	if d.FailNext != nil {
 		err := d.FailNext
@@ -713,7 +728,11 @@ func (d *DB) query(s string, args []driver.Value) (driver.Rows, error) {
 		t := d.Tables[name]
 		rs := &rows{cols: []string{"column_name"}}
 		if t != nil {
-			for _, c := range t.Cols {
+			cols := t.Cols
+			if mc := d.MetaCols[name]; mc != nil {
+				cols = mc
+			}
+			for _, c := range cols {
 				rs.data = append(rs.data, []driver.Value{c})
 			}
 		}
@@ -723,7 +742,7 @@ func (d *DB) query(s string, args []driver.Value) (driver.Rows, error) {
 	if t == nil {
 		return nil, fmt.Errorf("fakesql: unknown table %s", ps.Table)
 	}
-	sel := d.Select(ps)
+	sel := d.selectFrom(ps, snapshot)
 	if ps.Kind == "COUNT" {
 		return &rows{cols: []string{"COUNT(*)"}, data: [][]driver.Value{{int64(len(sel))}}}, nil
 	}
@@ -781,7 +800,7 @@ func (x *drv) Open(dsn string) (driver.Conn, error) {
 
 type conn struct{ d *DB }
 
-func (c *conn) Prepare(q string) (driver.Stmt, error) { return &stmt{c.d, q}, nil }
+func (c *conn) Prepare(q string) (driver.Stmt, error) { return &stmt{c.d, q, c}, nil }
 func (c *conn) Close() error                          { return nil }
 func (c *conn) Begin() (driver.Tx, error) {
 	d := c.d
@@ -789,6 +808,7 @@ func (c *conn) Begin() (driver.Tx, error) {
 		return nil, errors.New("fakesql: nested transaction")
 	}
 	d.inTx = true
+	d.txOwner = c
 	d.pending = nil
 	d.snapshot = map[string][][]driver.Value{}
 	for n, t := range d.Tables {
@@ -830,9 +850,14 @@ func (t *tx) Rollback() error {
 type stmt struct {
 	d *DB
 	q string
+	c *conn
 }
 
 func (s *stmt) Close() error                                    { return nil }
 func (s *stmt) NumInput() int                                   { return -1 }
 func (s *stmt) Exec(args []driver.Value) (driver.Result, error) { return s.d.exec(s.q, args) }
-func (s *stmt) Query(args []driver.Value) (driver.Rows, error)  { return s.d.query(s.q, args) }
+func (s *stmt) Query(args []driver.Value) (driver.Rows, error) {
+	// read isolation: while a transaction is open, statements on other connections see the rows as they were
+	// before it began (no dirty reads); the transaction's own connection sees its uncommitted writes
+	return s.d.queryAs(s.q, args, s.d.inTx && s.d.txOwner != s.c && s.d.Isolate)
+}
